@@ -234,6 +234,8 @@ def check(case):
                 theta.copy(), x.copy(), dlogp_dpsi=None if U is None else U.copy(), reduce=True, **kw)
             _gtol(case, g, np.concatenate([bottom, top]), 'reduce=True vs reordered separate form')
 
+    _extra_clauses(case, m, pop, n_ids, theta, x, cov, special, want, kw)
+
     if pop['kind'] in ref.ELEM:
         with case.clause('unflattened'):
             sc, dpsi2, T = m.compute_sensitivities(
@@ -244,6 +246,58 @@ def check(case):
             if sep is not None:
                 _gtol(case, T.sum(axis=0).flatten(), sep[1], 'sum over individuals of unflattened dtheta')
                 _gtol(case, dpsi2, sep[0], 'dpsi (flattened=False)')
+
+
+def _extra_clauses(case, m, pop, n_ids, theta, x, cov, special, want, kw):
+    s = case.spec
+    n_dim = ref.pop_n_dim(pop)
+    # ---- the point mass has no width -------------------------------------------------------
+    if any(special) and cov is None and np.isfinite(want):
+        with case.clause('point_mass_strict'):
+            d = [k for k, sp in enumerate(special) if sp][0]
+            for label, f in (('one unit in the last place', lambda v: np.nextafter(v, np.inf)),
+                             ('a relative 1e-9', lambda v: v * (1.0 + 1e-9)), ('an absolute 1e-9', lambda v: v + 1e-9)):
+                x2 = x.copy()
+                x2[0, d] = f(x2[0, d])
+                if x2[0, d] == x[0, d]:
+                    continue
+                v = m.compute_log_likelihood(theta.copy(), x2, **kw)
+                case.close(v, -np.inf, what='log-likelihood with the value of individual 0 in point-mass dimension %d off '
+                                            'by %s' % (d, label))
+                sc = m.compute_sensitivities(theta.copy(), x2.copy(), **kw)[0]
+                case.close(sc, -np.inf, what='score of compute_sensitivities with the value of individual 0 in point-mass '
+                                             'dimension %d off by %s' % (d, label))
+    # ---- whole numbers typed as integers ---------------------------------------------------
+    if cov is None and s['layout'] == 'flat':
+        with case.clause('integer_inputs'):
+            th_i = np.maximum(1, np.round(np.abs(theta))).astype(int)
+            x_i = np.maximum(1, np.round(np.abs(x))).astype(int)
+            th_f = th_i.astype(float)
+            if any(special):
+                xc = np.asarray(m.compute_individual_parameters(th_f.copy(), x_i.astype(float)), dtype=float)
+                for d, sp in enumerate(special):
+                    if sp:
+                        x_i[:, d] = np.round(xc[:, d]).astype(int)
+            x_f = x_i.astype(float)
+            v_f = m.compute_log_likelihood(th_f.copy(), x_f.copy())
+            ref_v = float(np.real(ref.pop_loglik(pop, n_ids, th_f, x_f, None)))
+            case.close(v_f, ref_v, rtol=1e-8, what='log-likelihood at whole numbers (floats) vs reference')
+            # (arrays are the documented argument type; lists are not demanded)
+            for label, ct, cx in (('int arrays', th_i, x_i), ('a float parameter array and an int observation array',
+                                                               th_f.copy(), x_i)):
+                case.close(m.compute_log_likelihood(ct, cx), v_f, rtol=1e-12,
+                           what='log-likelihood for whole numbers given as %s vs as floats' % label)
+                ia = np.asarray(m.compute_individual_parameters(ct, cx), dtype=float)
+                ib = np.asarray(m.compute_individual_parameters(th_f.copy(), x_f.copy()), dtype=float)
+                case.close(ia, ib, rtol=1e-12, what='individual parameters for whole numbers given as %s vs as floats' % label)
+                if np.isfinite(v_f):
+                    for red in (False, True):
+                        a = m.compute_sensitivities(ct, cx, reduce=red)
+                        b = m.compute_sensitivities(th_f.copy(), x_f.copy(), reduce=red)
+                        for u, v in zip(a, b):
+                            case.close(np.asarray(u, dtype=float), np.asarray(v, dtype=float), rtol=1e-12,
+                                       what='compute_sensitivities(reduce=%s) for whole numbers given as %s vs as floats'
+                                            % (red, label))
 
 
 def _special_param_index(pop, n_ids):
